@@ -114,6 +114,9 @@ type Interp struct {
 	unwind    int
 	fnSeen    map[*ssa.Function]bool
 	opaqueSeq int
+	cryptoSeq int
+	der       map[string]*derEntry
+	curves    map[string]Value
 	allocLimit *Term
 	allocLimitName string
 	writeMark int
